@@ -4,4 +4,4 @@ POSTCONDITION TraceAccepted
 CHECK_DEADLOCK FALSE
 CONSTANTS
   None = 0
-  CheckLocks = FALSE
+  CheckLocks = TRUE
